@@ -326,3 +326,61 @@ def _starts_item(op, av, ch, ic):
     if op in (C.GROUPREF, C.GROUPREF_EXISTS):
         return True, True
     raise ValueError('regex op %r not modelled' % (op,))
+
+
+def phrases(pattern, flags=FLAGS, limit=512):
+    """For a rule that spells keywords: the finite set of phrases it can match, as upper-cased words joined by single
+    blanks (every whitespace separator rendered as one blank, zero-width assertions ignored).  None if the rule is not of
+    that kind (character classes other than \\s, unbounded repeats of anything but whitespace, back references ...)."""
+    try:
+        out = _phr(list(parse(pattern, flags)), limit)
+    except _NotPhrase:
+        return None
+    res = set()
+    for s in out:
+        res.add(' '.join(s.upper().split()))
+    return res
+
+
+class _NotPhrase(Exception):
+    pass
+
+
+def _phr(seq, limit):
+    acc = {''}
+    for op, av in seq:
+        nxt = _phr_item(op, av, limit)
+        acc = {a + b for a in acc for b in nxt}
+        if len(acc) > limit:
+            raise _NotPhrase()
+    return acc
+
+
+def _phr_item(op, av, limit):
+    if op is C.LITERAL:
+        return {' ' if _is_ws_char(av) else chr(av)}
+    if op is C.AT:
+        return {''}
+    if op in (C.ASSERT, C.ASSERT_NOT):
+        return {''}
+    if op is C.IN:
+        if len(av) == 1 and av[0] == (C.CATEGORY, C.CATEGORY_SPACE):
+            return {' '}
+        raise _NotPhrase()
+    if op in (C.MAX_REPEAT, C.MIN_REPEAT):
+        lo, hi, sub = av
+        items = list(sub)
+        if len(items) == 1 and items[0][0] is C.IN and list(items[0][1]) == [(C.CATEGORY, C.CATEGORY_SPACE)]:
+            return {' '} if lo >= 1 else {'', ' '}
+        if hi > 1:
+            raise _NotPhrase()
+        body = _phr(items, limit)
+        return (body | {''}) if lo == 0 else body
+    if op is C.BRANCH:
+        res = set()
+        for b in av[1]:
+            res |= _phr(list(b), limit)
+        return res
+    if op is C.SUBPATTERN:
+        return _phr(list(av[3]), limit)
+    raise _NotPhrase()
